@@ -264,6 +264,8 @@ func (a *activityManager) publishActivityEvent(event *client.ActivityStreamEvent
 		Value:     data,
 		Stream:    activityStream,
 		AckPolicy: a.config.ActivityStream.PublishAckPolicy,
+		// Don't check the offset if concurrency control is enabled.
+		ExpectedOffset: -1,
 	})
 	if err != nil {
 		return errors.Wrap(err, "failed to publish event to stream")
